@@ -1,20 +1,79 @@
 (* Props/C07.v — "Parsing does not depend on how input bytes arrive": property theorems only.
-   (theorems are added below as they are proved; see notes/C07.md) *)
-From Verif Require Import Base.Str Syntax.Pos Syntax.Reader.
+   Model: Syntax/Reader.v (the parser's byte reader under a read schedule: list of chunk lengths
+   incl. 0 and 1, EOF with or after the last data; buffer size a parameter, 1024 in Go).
+   Spec: the same functions on the unchunked input with no buffer at all (ast, arune, apeek...). *)
+From Verif Require Import Base.Str Syntax.Pos Syntax.Reader Proofs.ReaderProofs Proofs.ReaderRuneProofs.
 Open Scope N_scope.
 
-(* The witnesses of the defects repaired by fix: commits c37b7a8 / 9108a51 / d3fa48b, evaluated on the
-   model of the repaired code: one-byte reads, data+EOF reads and the single read now agree. *)
+(* C07_rune_stream, full statement:
+     forall bufsz obq obqd input sched eager, 4 <= bufsz ->
+       trace bufsz obq obqd input sched eager = atrace obq obqd input
+   (hence equal for any two schedules).  PROVED BELOW FOR INPUTS OF BYTES < 128 — all of CRLF,
+   NUL skipping, backslash-newline, backslash-CR-LF, the backquote-escape lookahead, EOF position,
+   every schedule and buffer size >= 4.  Missing for the _partial: the non-ASCII branch (decodeRune
+   with its UTF-8 refill and the invalid-UTF-8 error), which needs the lemma
+   "full_rune p or a valid decode of p => decode_rune (p ++ q) = decode_rune p"; that branch is
+   covered by the code leg and the search only. *)
+Theorem C07_rune_stream_partial : forall bufsz obq obqd input sched eager,
+  (4 <= bufsz)%nat -> ascii input ->
+  trace bufsz obq obqd input sched eager = atrace obq obqd input.
+Proof. exact rune_stream_ascii. Qed.
+Print Assumptions C07_rune_stream_partial.
+
+Theorem C07_rune_stream_schedule_free_partial : forall bufsz obq obqd input sched eager,
+  (4 <= bufsz)%nat -> ascii input ->
+  trace bufsz obq obqd input sched eager = trace bufsz obq obqd input [] false.
+Proof. exact rune_stream_schedule_free. Qed.
+Print Assumptions C07_rune_stream_schedule_free_partial.
+
+(* Lookahead completeness, for EVERY reader state satisfying the invariant Inv (any bytes, any
+   schedule, any buffer split).  Inv holds initially (Inv_init) and is preserved by fill and by every
+   lookahead (the first conjuncts below) and by rune on inputs of bytes < 128 (rune_spec).
+   [rem s] is the input not yet consumed: buffered-but-unread bytes ++ bytes the reader still holds. *)
+Theorem C07_peek_complete : forall bufsz s s' b, Inv bufsz s -> r s <> runeEOF -> (0 < bufsz)%nat ->
+  peek bufsz s = (s', b) ->
+  Inv bufsz s' /\ same_abs s s' /\ b = ahd (rem s).
+Proof. intros bufsz s s' b H1 H2 H3 H4. destruct (peek_spec bufsz s s' b H1 H2 H3 H4) as (A & B & C & _). auto. Qed.
+Print Assumptions C07_peek_complete.
+
+Theorem C07_peekTwo_complete : forall bufsz s s' a b, Inv bufsz s -> r s <> runeEOF -> (1 < bufsz)%nat ->
+  peekTwo bufsz s = (s', a, b) ->
+  Inv bufsz s' /\ same_abs s s' /\
+  (a, b) = match rem s with [] => (RuneSelfB, RuneSelfB) | [x] => (x, RuneSelfB) | x :: y :: _ => (x, y) end.
+Proof. exact peekTwo_spec. Qed.
+Print Assumptions C07_peekTwo_complete.
+
+(* zshNumRange sees exactly what the unbuffered Spec sees: digits* '-' digits* '>' within the next
+   bufsz bytes of the remaining input, however the reader chunks them. *)
+Theorem C07_zshNumRange_complete : forall bufsz s s' z a, Inv bufsz s -> r s <> runeEOF -> a_rem a = rem s ->
+  zshNumRange bufsz s = (s', z) ->
+  Inv bufsz s' /\ same_abs s s' /\ z = azshNumRange bufsz a.
+Proof. exact zshNumRange_spec. Qed.
+Print Assumptions C07_zshNumRange_complete.
+
+(* C07_bquote_lookahead_complete is part of C07_rune_stream_partial: obq/obqd are arbitrary there and
+   the Spec's aloop tests the next unread byte, not the buffer. *)
+
+Theorem C07_inv_init : forall bufsz rdr, Inv bufsz (init rdr).
+Proof. exact Inv_init. Qed.
+Print Assumptions C07_inv_init.
+
+(* non-vacuity and the witnesses of the defects repaired by fix: c37b7a8 / 9108a51 / d3fa48b on the
+   model of the repaired code: one-byte reads, data+EOF reads and the single read agree, also on
+   non-ASCII input (outside the proved scope, evaluated). *)
 Example C07_fixed_witnesses :
   let ones n := repeat 1%nat n in
-  (* zsh "<1-10> x": zshNumRange after the '<' *)
   (snd (zshNumRange 1024 (rune 1024 0 0 (init (mkreader [60;49;45;49;48;62;32;120] (ones 8%nat) false)))),
    snd (zshNumRange 1024 (rune 1024 0 0 (init (whole [60;49;45;49;48;62;32;120]))))) = (true, true)
-  /\ (* "==foo}": peekTwo after the first '=' *)
+  /\
   (snd (peekTwo 1024 (rune 1024 0 0 (init (mkreader [61;61;102;111;111;125] (ones 6%nat) false)))),
    snd (peekTwo 1024 (rune 1024 0 0 (init (whole [61;61;102;111;111;125]))))) = (102, 102)
-  /\ (* five backslashes and '$' inside backquotes *)
-  trace 1024 1 0 [92;92;92;92;92;36;120] (ones 7%nat) false = trace 1024 1 0 [92;92;92;92;92;36;120] [] false
-  /\ (* "a" from a reader that returns the data together with io.EOF *)
-  trace 1024 0 0 [97] [] true = trace 1024 0 0 [97] [] false.
+  /\
+  trace 1024 1 0 [92;92;92;92;92;36;120] (ones 7%nat) false = atrace 1 0 [92;92;92;92;92;36;120]
+  /\
+  trace 1024 0 0 [97] [] true = atrace 0 0 [97]
+  /\
+  trace 1024 0 0 [36;92;13;10;195;169;10;240;159;152;128;255] [1;0;2;1;1;3]%nat true
+    = atrace 0 0 [36;92;13;10;195;169;10;240;159;152;128;255]
+  /\ length (atrace 0 0 [36;92;13;10;195;169;10;240;159;152;128;255]) = 6%nat.
 Proof. vm_compute. repeat split; reflexivity. Qed.
